@@ -11,7 +11,7 @@
    3. Every generic fact (monotonicity, stop simulation, freezing, interleaved
       log) is proved once, by induction on [Built]. *)
 From Coq Require Import ZArith NArith List String Bool Floats FMapPositive Lia Arith.
-From EvyV Require Import Base Num Ast Omap Sem.
+From EvyV Require Import Base Num Ast Omap Sem SemPure.
 Import ListNotations.
 Local Open Scope nat_scope.
 
@@ -271,7 +271,16 @@ Proof.
   destruct (st_input s); inversion H; subst; clear H; repeat split; simpl; auto.
 Qed.
 
-(* ONE lemma for the built-ins, by a uniform walk over the [if name_is ...] chain *)
+(* a computation that factors through the heap (SemPure: every pure built-in) is an atom *)
+Lemma atom_heap_only A (m : M A) : heap_only m -> atom m.
+Proof.
+  intros HO s r s' H. destruct (heap_only_run m s r s' HO H) as (E & _ & T).
+  rewrite E. repeat split; auto.
+  intros o b y c. rewrite (T (set_ctl o b y c s) eq_refl). reflexivity.
+Qed.
+
+(* ONE lemma for the built-ins, by a uniform walk over the [if name_is ...] chain; the pure
+   string and math built-ins through the generic SemPure.pure_builtin_spec *)
 Lemma atom_builtin name e args m : builtin name e args = Some m -> atom m.
 Proof.
   intro H. unfold builtin in H.
@@ -279,7 +288,7 @@ Proof.
          | (if ?c then _ else _) = Some _ =>
              destruct c; [ injection H as <-; first [ apply atom_read | atom_tac ] | ]
          end.
-  discriminate.
+  eapply atom_heap_only, pure_builtin_spec; exact H.
 Qed.
 
 (* ---------- computations built from atoms and ticks ---------- *)
